@@ -301,6 +301,15 @@ def body(ctx, prefix='C18'):
             first = next((i for i, (x, y) in enumerate(zip(a, b)) if x != y), min(len(a), len(b)))
             ctx.violation(prefix + '.SessionSame', dict(kind='session', mode=mode, first_difference_at=first, over_socket=repr(a[first])[:200] if first < len(a) else None,
                                                          in_memory=repr(b[first])[:200] if first < len(b) else None))
+    # the same over constrained sockets: 4 KiB receive buffer, slow reader, non-blocking writes (a push larger than the socket buffers)
+    from . import c15
+    for mode in ('sync', 'async'):
+        out, events, err = c15.loopback_case(mode, 1024 * 1024, 1500000, ctx.seed + 9)
+        ctx.count(evaluations=1)
+        if err:
+            raise tlc.TlcError('socket server failed: %r' % err)
+        if out['outcome'] != 'ret' or not out['intact']:
+            ctx.violation(prefix + '.SessionSame', dict(kind='session over constrained sockets', **out))
     ctx.assumptions += ['lower time bounds only (a timeout must not fire before 80 % of the requested time); no upper bounds on wall-clock time',
                         'the driver is sequential and never races a peer write against a read that is expected to time out']
 
